@@ -69,7 +69,7 @@ PROPS = {
     "C08": dict(
         props="props/C08.v",
         streams=[dict(name="core-c08")],
-        decisive_codes=[2, 3, 9],
+        decisive_codes=[1, 2, 3, 9],
         modelled='generator/generator.go Build/Assign/callExisting/CallMethod/ReturnError/requireContext/delegateMethod/wrap/shouldCreateSubMethod/createSubMethod/buildMethod/convertTo/buildMethods, generator/setup.go (extend index with RegisterOverrideOverlapping, Register overlap check), method/index.go Get/Has, generator/validate.go, builder/{basic,pointer,list,map,struct,skipcopy,default,errorpath,underlying}.go incl. mapField (paths, struct-method sources, map ... | FUNC) and buildTargetVar (default FUNC, default:update), xtype/type.go (TypeOf flags, FindField, asID), namer.Name (Gen.v, Plan.v, Eval.v, Funcs.v); roles of function parameters by the Sig model of method.Parse; BuildSteps order and every Matches predicate, isEnum, findUnderlyingExtendMapping, shouldCheckAgainstZero are regenerated from the source (Extracted.v); builder/enum.go (Enum.Build, caseAction, duplicate-value handling, transformers as rewriting results) and xtype/enum.go; not in the model (class D_UNMODELLED): generic functions, multi-source functions, map . F | FUNC with the enclosing pointer',
         assumptions=['the meaning of each emitted code template (make, range, &x, nil guards, x, err := f(..); if err != nil { return .., wrap(err) }) is assigned by Eval.v and validated only by executing the compiled output', 'custom functions are the deterministic oracle of Val.mark / mark_token / fn_fails (the harness generates Go bodies computing the same function via package sup); which functions a goverter:extend pattern matches and which parameter names match arg:context:regex is computed by the harness with Go regexp', 'values are finite and acyclic; map key conversions are injective on the generated values', "the harness' own reading of the boolean settings lines (the C12 model covers the settings parser)"],
     ),
